@@ -60,6 +60,26 @@ namespace
 
     size_t nblocks(size_t bits) { return (bits + W - 1) / W; }
 
+    // A forward iterator over caller blocks whose dereference is a fault point: the caller's iterator may throw in the
+    // middle of a block-range constructor or assign.
+    struct ThrowingBlockIt
+    {
+        using iterator_category = std::forward_iterator_tag;
+        using value_type = B;
+        using difference_type = std::ptrdiff_t;
+        using pointer = const B*;
+        using reference = const B&;
+        std::list<B>::const_iterator it;
+        reference operator*() const { fault_point(FK_THROW); return *it; }
+        ThrowingBlockIt& operator++() { ++it; return *this; }
+        ThrowingBlockIt operator++(int) { ThrowingBlockIt t(*this); ++it; return t; }
+        friend bool operator==(const ThrowingBlockIt& a, const ThrowingBlockIt& b) { return a.it == b.it; }
+        friend bool operator!=(const ThrowingBlockIt& a, const ThrowingBlockIt& b) { return a.it != b.it; }
+    };
+    // a braced list of 70 bools taken from an array (initializer lists cannot be built at run time)
+#define BS_L10(b, i) b[i], b[i + 1], b[i + 2], b[i + 3], b[i + 4], b[i + 5], b[i + 6], b[i + 7], b[i + 8], b[i + 9]
+#define BS_L70(b) BS_L10(b, 0), BS_L10(b, 10), BS_L10(b, 20), BS_L10(b, 30), BS_L10(b, 40), BS_L10(b, 50), BS_L10(b, 60)
+
     std::vector<B> pack(const Model& m)
     {
         std::vector<B> v(nblocks(m.size()), B(0));
@@ -304,10 +324,13 @@ namespace
         // exception, so they are kept after bad_alloc too (which *value* the bitset then has is not asked: old or new)
         template <class F> bool guarded(int t, F f, bool canonical = true)
         {
+            bool thrown_by_iterator = false;
             try { f(); return true; }
-            catch (const std::bad_alloc&)
+            catch (const Injected&) { thrown_by_iterator = true; SIM_PROBE("caller_iterator_threw"); }
+            catch (const std::bad_alloc&) {}
             {
                 if (!fstate().fired) viol("exception", "unexpected-bad_alloc", "bad_alloc without an injected allocation failure");
+                (void)thrown_by_iterator;
                 if (canonical)
                 {
                     const BSet& cx = own[t].get();
@@ -331,9 +354,11 @@ namespace
         void op_construct(const Step& st)
         {
             int t = st.actor % 3;
-            static const char* const vn[] = {"default", "allocator", "count_value", "count", "ilist", "block_range", "copy", "from_view", "move"};
-            unsigned v = static_cast<unsigned>(st.d % 9);
+            static const char* const vn[] = {"default", "allocator", "count_value", "count", "ilist", "block_range", "copy", "from_view", "move", "ilist_70"};
+            unsigned v = static_cast<unsigned>(st.d % 10);
             Scope sc(*this, st, "construct", vn[v], t);
+            bool lb[70];
+            { Model l = rand_bits(st.b ^ 0x70, 70); for (size_t i = 0; i < 70; ++i) lb[i] = l[i]; }
             size_t n = size_pick(st.a);
             bool val = st.b & 1;
             int src = (t + 1 + static_cast<int>(st.c % 2)) % 3;
@@ -359,7 +384,8 @@ namespace
                     else if (n % 3 == 1) { new (p) BSet(std::initializer_list<bool>{val}); nm = Model{val}; }
                     else { bool b1 = st.b & 2, b2 = st.b & 4, b3 = st.b & 8; new (p) BSet(std::initializer_list<bool>{val, b1, b2, b3, true}); nm = Model{val, b1, b2, b3, true}; }
                     break;
-                case 5: new (p) BSet(blist.begin(), blist.end()); nm.assign(blocks.size() * W, false); for (size_t i = 0; i < bits.size(); ++i) nm[i] = bits[i]; break;
+                case 5: new (p) BSet(ThrowingBlockIt{blist.begin()}, ThrowingBlockIt{blist.end()}); nm.assign(blocks.size() * W, false); for (size_t i = 0; i < bits.size(); ++i) nm[i] = bits[i]; break;
+                case 9: new (p) BSet(std::initializer_list<bool>{BS_L70(lb)}); nm.assign(lb, lb + 70); break;
                 case 6: new (p) BSet(static_cast<const BSet&>(own[src].get())); nm = om[src]; break;
                 case 7: new (p) BSet(static_cast<const xtl::xdynamic_bitset_base<View>&>(vh[vsrc].get())); nm = reg[vreg[vsrc]].m; break;
                 default:
@@ -378,6 +404,14 @@ namespace
                 ok = false;
                 SIM_PROBE("allocation_failure_in_constructor");
             }
+            catch (const Injected&)
+            {
+                Suspend s;
+                new (p) BSet();
+                nm.clear();
+                ok = false;
+                SIM_PROBE("caller_iterator_threw");
+            }
             om[t] = nm;
             (void)ok;
             ++run.changing;
@@ -387,9 +421,11 @@ namespace
         void op_assign(const Step& st)
         {
             int t = st.actor % 3;
-            static const char* const vn[] = {"count_value", "block_range", "ilist"};
-            unsigned v = static_cast<unsigned>(st.d % 3);
+            static const char* const vn[] = {"count_value", "block_range", "ilist", "ilist_70"};
+            unsigned v = static_cast<unsigned>(st.d % 4);
             Scope sc(*this, st, "assign", vn[v], t);
+            bool lb[70];
+            { Model l = rand_bits(st.b ^ 0x70, 70); for (size_t i = 0; i < 70; ++i) lb[i] = l[i]; }
             size_t n = size_pick(st.a);
             bool val = st.b & 1;
             Model bits = rand_bits(st.b, n);
@@ -400,7 +436,9 @@ namespace
                 switch (v)
                 {
                 case 0: x.assign(n, val); nm.assign(n, val); break;
-                case 1: x.assign(blocks.begin(), blocks.end()); nm.assign(blocks.size() * W, false); for (size_t i = 0; i < bits.size(); ++i) nm[i] = bits[i]; break;
+                case 1: { std::list<B> bl(blocks.begin(), blocks.end()); x.assign(ThrowingBlockIt{bl.begin()}, ThrowingBlockIt{bl.end()}); }
+                        nm.assign(blocks.size() * W, false); for (size_t i = 0; i < bits.size(); ++i) nm[i] = bits[i]; break;
+                case 3: x.assign(std::initializer_list<bool>{BS_L70(lb)}); nm.assign(lb, lb + 70); break;
                 default:
                     { bool b1 = st.b & 2, b2 = st.b & 4;
                       if (n % 2) { x.assign(std::initializer_list<bool>{val, b1, b2}); nm = Model{val, b1, b2}; } else { x.assign(std::initializer_list<bool>{}); } }
@@ -822,6 +860,22 @@ namespace
             with(t, [&](auto& x) { this->with(p, [&](auto& y) { eq = (x == y); ne = (x != y); }); });
             if (eq != want || ne == want) viol("model", "ret", std::string("operator==/!= between ") + kind(t) + " and " + kind(p) + " wrong: == gave " + (eq ? "true" : "false") + " for " + show(model_of(t)) + " vs " + show(model_of(p)));
             if (want) SIM_PROBE("compared_equal");
+            if (((st.b >> 1) & 3) == 0)
+            {
+                // a view over the FIRST k whole blocks of t's own storage: same memory, the same bits on the common prefix,
+                // equal exactly when it covers all of t
+                Suspend nofaults;
+                with(t, [&](auto& x) {
+                    size_t whole = x.size() / W;
+                    size_t k = static_cast<size_t>((st.b >> 3) % (whole + 1));
+                    View tv(const_cast<B*>(x.data()), k * W);
+                    bool same = k * W == x.size();
+                    const auto& cx = x;
+                    if ((cx == tv) != same || (tv == cx) != same || (cx != tv) == same || (tv != cx) == same)
+                        this->viol("model", "ret", "operator==/!= between a bitset of " + std::to_string(x.size()) + " bits and a view of " + std::to_string(k * W) + " bits over the same memory is wrong");
+                    SIM_PROBE("compared_with_view_over_own_storage");
+                });
+            }
             check_all();
         }
 
@@ -962,6 +1016,8 @@ namespace
         plan.params.push_back(n);
         unsigned fault_pct = BS_FAILALLOC ? static_cast<unsigned>(cfg.below(3)) * 20 : 0;
         plan.params.push_back(fault_pct);
+        unsigned throw_pct = static_cast<unsigned>(cfg.below(3)) * 15;      // the caller's block iterator throws in 0/15/30 % of block-range constructions and assigns
+        plan.params.push_back(throw_pct);
         unsigned w[OP_COUNT];
         for (unsigned i = 0; i < OP_COUNT; ++i) w[i] = 4;
         w[OP_resize] = 10; w[OP_push_back] = 6; w[OP_flip_all] = w[OP_set_all] = 6; w[OP_shl_assign] = w[OP_shr_assign] = 7;
@@ -981,6 +1037,7 @@ namespace
             s.a = pr.next() >> 24; s.b = pr.next() >> 24; s.c = pr.next() >> 24; s.d = pr.next() >> 44;
             bool allocs = s.op == OP_construct || s.op == OP_assign || s.op == OP_resize || s.op == OP_push_back || s.op == OP_reserve || s.op == OP_copy_assign;
             if (allocs && pr.below(100) < fault_pct) { s.fkind = FK_ALLOC; s.fk = pr.below(2); }
+            else if ((s.op == OP_construct || s.op == OP_assign) && pr.below(100) < throw_pct) { s.fkind = FK_THROW; s.fk = pr.below(4); }
             plan.steps.push_back(s);
         }
     }
